@@ -847,6 +847,8 @@ def prune_option_field(body, field, keep_some):
         # which discriminant value stands for "the Option is Some": 1 for an Option; 0 (Ok / Continue) when the Option was turned
         # into a Result with ok_or / ok_or_else and is looked at through `?` or a match on the Result
         ty = str(body.locals[d[3]['r']['p'][0]]).lstrip('&')
+        if re.match(r'std::option::Option<[A-Za-z_:]*(Guard)<', ty) and any(re.search(r'::try_(read|write|lock|upgradable_read)(_for|_until|_recursive)?$', c) for c in sl.calls):
+            continue        # `try_read()` / `try_lock()`: None says the LOCK is taken, not that the Option behind the field is None
         if ty.startswith('std::option::Option<'):
             some_v = 1
         elif (ty.startswith('std::result::Result<') or ty.startswith('std::ops::ControlFlow<')) and any(re.search(r'Option::<.*>::ok_or(_else)?$', c) for c in sl.calls):
